@@ -55,6 +55,7 @@ type site struct {
 	Line int    `json:"line"`
 	Col  int    `json:"col"`
 	Func string `json:"func"`
+	Hot  bool   `json:"hot,omitempty"` // the statement touches package-level state, sync/atomic, or stores through a selector/index
 }
 
 type sitesFile struct {
@@ -66,6 +67,7 @@ type sitesFile struct {
 	OnceShims    int      `json:"once_shims"`
 	GoStmts      int      `json:"go_statements"`
 	GoStmtLocs   []string `json:"go_statement_locs"`
+	HotSites     int      `json:"hot_sites"`
 	Files        int      `json:"files"`
 	Packages     []string `json:"packages"`
 }
@@ -160,6 +162,7 @@ func main() {
 		info := &types.Info{
 			Types:      map[ast.Expr]types.TypeAndValue{},
 			Selections: map[*ast.SelectorExpr]*types.Selection{},
+			Uses:       map[*ast.Ident]types.Object{},
 		}
 		conf := types.Config{Importer: imp, Error: func(err error) {}}
 		if _, err := conf.Check(p.ImportPath, fset, files, info); err != nil {
@@ -176,12 +179,84 @@ func main() {
 			}
 			offset := func(p token.Pos) int { return fset.Position(p).Offset }
 			curFunc := ""
+			// hotExpr: does the expression (without descending into function
+			// literals) touch package-level variables or sync / sync/atomic?
+			var hotExpr func(e ast.Node) bool
+			hotExpr = func(e ast.Node) bool {
+				if e == nil {
+					return false
+				}
+				hot := false
+				ast.Inspect(e, func(n ast.Node) bool {
+					if hot {
+						return false
+					}
+					switch x := n.(type) {
+					case *ast.FuncLit:
+						return false
+					case *ast.BlockStmt:
+						return false
+					case *ast.Ident:
+						if obj, ok := info.Uses[x]; ok {
+							if v, ok := obj.(*types.Var); ok && !v.IsField() && v.Pkg() != nil && v.Parent() == v.Pkg().Scope() {
+								hot = true
+							}
+							if fn, ok := obj.(*types.Func); ok && fn.Pkg() != nil && (fn.Pkg().Path() == "sync/atomic" || fn.Pkg().Path() == "sync") {
+								hot = true
+							}
+						}
+					case *ast.SelectorExpr:
+						if sel, ok := info.Selections[x]; ok {
+							if fn, ok := sel.Obj().(*types.Func); ok && fn.Pkg() != nil && (fn.Pkg().Path() == "sync/atomic" || fn.Pkg().Path() == "sync") {
+								hot = true
+							}
+						}
+					}
+					return true
+				})
+				return hot
+			}
+			storesThrough := func(lhs []ast.Expr) bool {
+				for _, l := range lhs {
+					switch ast.Unparen(l).(type) {
+					case *ast.SelectorExpr, *ast.IndexExpr, *ast.StarExpr:
+						return true
+					}
+				}
+				return false
+			}
+			hotStmt := func(st ast.Stmt) bool {
+				switch x := st.(type) {
+				case *ast.AssignStmt:
+					return storesThrough(x.Lhs) || hotExpr(x)
+				case *ast.IncDecStmt:
+					return storesThrough([]ast.Expr{x.X}) || hotExpr(x)
+				case *ast.IfStmt:
+					return hotExpr(x.Init) || hotExpr(x.Cond)
+				case *ast.ForStmt:
+					return hotExpr(x.Init) || hotExpr(x.Cond) || hotExpr(x.Post)
+				case *ast.RangeStmt:
+					return hotExpr(x.X)
+				case *ast.SwitchStmt:
+					return hotExpr(x.Init) || hotExpr(x.Tag)
+				case *ast.TypeSwitchStmt:
+					return hotExpr(x.Init) || hotExpr(x.Assign)
+				case *ast.LabeledStmt, *ast.BlockStmt, *ast.SelectStmt:
+					return false
+				default:
+					return hotExpr(st)
+				}
+			}
 			insertYields := func(list []ast.Stmt) {
 				for _, s := range list {
 					pos := fset.Position(s.Pos())
 					id := nextSite
 					nextSite++
-					sf.Sites = append(sf.Sites, site{ID: id, File: rel, Line: pos.Line, Col: pos.Column, Func: curFunc})
+					h := hotStmt(s)
+					if h {
+						sf.HotSites++
+					}
+					sf.Sites = append(sf.Sites, site{ID: id, File: rel, Line: pos.Line, Col: pos.Column, Func: curFunc, Hot: h})
 					add(pos.Offset, pos.Offset, fmt.Sprintf("__simrt.Yield(%d); ", id))
 				}
 			}
@@ -334,6 +409,6 @@ func main() {
 	if err := os.WriteFile(*sitesOut, jb, 0o644); err != nil {
 		die("%v", err)
 	}
-	fmt.Fprintf(os.Stderr, "cvssinst: %d packages, %d files, %d yield sites, %d map ranges, %d lock shims, %d once shims, %d go statements\n",
-		len(mods), sf.Files, len(sf.Sites), sf.MapRanges, sf.LockShims, sf.OnceShims, sf.GoStmts)
+	fmt.Fprintf(os.Stderr, "cvssinst: %d packages, %d files, %d yield sites (%d hot), %d map ranges, %d lock shims, %d once shims, %d go statements\n",
+		len(mods), sf.Files, len(sf.Sites), sf.HotSites, sf.MapRanges, sf.LockShims, sf.OnceShims, sf.GoStmts)
 }
